@@ -385,6 +385,10 @@ pub struct Incremental {
     pub initial: u64,
     /// quantities of the appended transactions, as fractions of what is still remaining
     pub parts: Vec<(u16, u64)>,
+    /// append the previous transaction once more, field for field (same id, same timestamp),
+    /// instead of a new one (when its quantity still fits)
+    #[serde(default)]
+    pub repeat: Vec<bool>,
 }
 
 fn incremental() -> proptest::strategy::BoxedStrategy<Incremental> {
@@ -393,8 +397,9 @@ fn incremental() -> proptest::strategy::BoxedStrategy<Incremental> {
         crate::gen::id_spec(),
         prop_oneof![crate::gen::boundary_u64(), 0u64..500],
         proptest::collection::vec((any::<u16>(), crate::gen::boundary_u64()), 0..12),
+        proptest::collection::vec(proptest::bool::weighted(0.25), 12),
     )
-        .prop_map(|(taker, initial, parts)| Incremental { taker, initial, parts })
+        .prop_map(|(taker, initial, parts, repeat)| Incremental { taker, initial, parts, repeat })
         .boxed()
 }
 
@@ -406,11 +411,21 @@ pub fn eval_incremental(c: &Incremental, st: &mut Stats) -> Result<(), String> {
         return Err(format!("MatchResult::new({}) starts with remaining {} executed {}", c.initial, m.remaining_quantity, m.executed_quantity()));
     }
     let mut sum: u64 = 0;
+    let mut prev: Option<Transaction> = None;
+    let mut repeats = 0u32;
     for (k, (frac, price)) in c.parts.iter().enumerate() {
         let left = c.initial - sum;
         // sum of the appended quantities stays within the initial quantity (domain of the property)
         let q = if *frac == u16::MAX { left } else { ((left as u128 * *frac as u128) >> 16) as u64 };
-        let t = Transaction::new(uuid::Uuid::from_u128(k as u128), taker, OrderId::from_u64(k as u64), *price, q, Side::Buy);
+        let mut t = Transaction::new(uuid::Uuid::from_u128(k as u128), taker, OrderId::from_u64(k as u64), *price, q, Side::Buy);
+        if let (Some(p), Some(true)) = (prev, c.repeat.get(k)) {
+            if p.quantity <= left {
+                t = p;
+                repeats += 1;
+            }
+        }
+        let q = t.quantity;
+        prev = Some(t);
         catch(|| m.add_transaction(t)).map_err(|e| format!("add_transaction panicked: {e}"))?;
         sum += q;
         if m.remaining_quantity != c.initial - sum {
@@ -427,6 +442,9 @@ pub fn eval_incremental(c: &Incremental, st: &mut Stats) -> Result<(), String> {
         }
     }
     st.count("incremental/results");
+    if repeats > 0 {
+        st.count("incremental/with_an_exact_repeat_of_the_previous_transaction");
+    }
     if c.parts.len() >= 2 && st.nontrivial(hash_of(c)) && st.want_sample() {
         st.sample(json!({"incremental_match_result": {"initial": c.initial, "appended": c.parts.len(), "sum": sum, "remaining": m.remaining_quantity, "is_complete": m.is_complete}}));
     }
@@ -515,6 +533,7 @@ fn std_order(q: u64, ts: u64) -> crate::spec::OrderSpec {
         lastref: 0,
         offset: 0,
         peg: 0,
+        own_price: None,
     }
 }
 
